@@ -21,7 +21,15 @@ let run () = iter_lines (fun line ->
     let ends_with s suf = String.length s >= String.length suf && String.sub s (String.length s - String.length suf) (String.length suf) = suf in
     let contains s sub = (let n = String.length sub in let rec go i = i + n <= String.length s && (String.sub s i n = sub || go (i + 1)) in go 0) in
     if not (contains info "update=0,0") then report "BAD" ("`scrut update` did not run: " ^ info) line;
-    if not (ends_with info "test=0") then report "SPEC:C10" ("after `scrut update` (twice) `scrut test` does not pass on the updated document: " ^ info) line
+    if not (contains info " test=0 ") && not (ends_with info "test=0") then report "SPEC:C10" ("after `scrut update` (twice) `scrut test` does not pass on the updated document: " ^ info) line;
+    (* line endings: a document written with CR LF keeps them on every line (the lines outside scrut blocks are preserved byte for
+       byte, so their CR as well), one written with LF stays so; "none": a document without any line ending *)
+    List.iter (fun f -> if String.length f > 8 && String.sub f 0 8 = "endings=" then begin
+        bump ("line-" ^ f);
+        (match split_on '>' (String.sub f 8 (String.length f - 8)) with
+         | [o; a; b] -> if (a <> o && a <> "none") || (b <> o && b <> "none") then
+             report "SPEC:C10" (Printf.sprintf "the document had %s line endings, after update it has %s (and %s after the second update): lines outside scrut blocks were not preserved byte for byte" o a b) line
+         | _ -> ()) end) (split_on ' ' info)
   end;
   match (if info <> "" then List.filteri (fun i _ -> i < 6) fields else fields) with
   | [doc; kinds; u1; u2; c0; c1] ->
@@ -72,7 +80,15 @@ let run () = iter_lines (fun line ->
       end;
       (* d. same commands after re-parsing; e. idempotence *)
       let first_gt = (not cmds_same) in
-      if not cmds_same then report "SPEC:C10" "known:first-line-looks-like-continuation the updated document parses to different commands (a kept expectation line that starts with `> ` became the first line after the shell expression)" line;
+      (* the listed shape: in the ORIGINAL document an expectation line `> ..` stands behind another line of the body (an exit-code
+         line, which the regenerated block moves to its end, or an expectation that the update removes): it may become the first line *)
+      let gt_after_code (ls : n list list) =
+        let rec body = function l :: r when starts_with_str l "$ " -> conts r | _ :: r -> body r | [] -> []
+        and conts = function l :: r when starts_with_str l "> " -> conts r | r -> r in
+        (match body ls with _ :: later -> List.exists (fun l -> starts_with_str l "> ") later | [] -> false) in
+      let shape = List.exists (fun (_, _, code) -> gt_after_code (List.map snd code)) b0 in
+      if not cmds_same && not shape then report "SPEC:C10" "the updated document parses to different commands" line
+      else if not cmds_same then report "SPEC:C10" "known:first-line-looks-like-continuation the updated document parses to different commands (a kept expectation line that starts with `> ` became the first line after the shell expression)" line;
       if is_hex u2 || u2 = "-" then begin
         if u2 <> u1 && not first_gt then report "SPEC:C10" "updating the updated document with the same outputs changes it again" line
       end else if not first_gt then report "SPEC:C10" ("second update: " ^ u2) line
